@@ -185,6 +185,9 @@ def _oracle(case, tz) -> Info:
                 if g == e[1]:
                     n_below += 1
 
+    from vlib.gen_cosem import scribble
+
+    scribble(guarded(dlde.decode_p1_readout_content, block, what="decode_p1_readout_content"))  # a first result, modified by the caller
     d_content = guarded(dlde.decode_p1_readout_content, block, what="decode_p1_readout_content")
     compare(d_content, "decode_p1_readout_content")
     readout_bytes = G.add_end(G.render_ident(ident) + block, checksum)
